@@ -2039,7 +2039,8 @@ public:
     SBEPP_CPP14_CONSTEXPR random_access_iterator&
         operator+=(difference_type n) noexcept
     {
-        ptr += n * block_length;
+        ptr += static_cast<std::ptrdiff_t>(n)
+               * static_cast<std::ptrdiff_t>(block_length);
         index += n;
         return *this;
     }
@@ -2389,7 +2390,16 @@ public:
     SBEPP_CPP14_CONSTEXPR reference operator[](size_type pos) const noexcept
     {
         SBEPP_ASSERT(pos < size());
-        return *(begin() + pos);
+        // `begin() + pos` would convert `pos` to `difference_type`, which
+        // cannot represent positions from the upper half of `size_type`
+        auto dimension = (*this)(get_header_tag{});
+        return *iterator{
+            (*this)(addressof_tag{}) + sbepp::size_bytes(dimension)
+                + static_cast<std::size_t>(pos)
+                      * dimension.blockLength().value(),
+            dimension.blockLength().value(),
+            pos,
+            (*this)(end_ptr_tag{})};
     }
 
     //! @brief Returns the first entry
